@@ -25,6 +25,7 @@ type HarnessRun struct {
 	SkipInit     map[string]bool
 	RunInitFuncs map[string]bool
 	HashCollisions bool
+	PoolNondet     bool
 	NoMerge      bool
 	Lim          Limits
 	Workers      int
@@ -291,13 +292,15 @@ func (h *HarnessRun) Run() *HarnessResult {
 					res.Funcs[k] = true
 				}
 				for _, v := range pr.violations {
-					dup := false
+					// keep up to MaxPerSite witnesses per site (different paths give different models:
+					// the driver replays them in turn until one reproduces on the real build)
+					same := 0
 					for _, o := range res.Violations {
 						if o.Msg == v.Msg && o.Pos == v.Pos && o.Known == v.Known {
-							dup = true
-							break
+							same++
 						}
 					}
+					dup := same >= h.MaxPerSite
 					if !dup {
 						res.Violations = append(res.Violations, v)
 					}
